@@ -125,30 +125,50 @@ def r1_dependencies(run, w):
                text(s.iter) == "self.tables.items()" and any(x is cl for x in ast.walk(s))]
   tl = _single(tab_loops, "_maybe_update_trigger_dependencies: loop over the tables")
   table_id = text(tl.target.elts[0])
+  flow = H.Flow(fn)
+  def key(e):
+    e2 = H.inline(flow, e)
+    t2 = text(e2)
+    if t2 == "%s.is_formula()" % col_obj:
+      return "is-formula"
+    if t2 == "%s.has_formula()" % col_obj:
+      return "has-formula"
+    rec = _is_recalc_when(e2, "DEFAULT")
+    if rec is not None and _col_rec_lookup(fn, rec, table_id, col_id):
+      return "default"
+    if isinstance(e2, ast.Compare) and len(e2.ops) == 1 and isinstance(e2.ops[0], ast.In) and \
+        isinstance(e2.comparators[0], ast.Attribute) and \
+        text(e2.comparators[0].value) == "self":
+      return "edge-known"          # membership in the engine's set of edges already added
+    return None
+  cond = H.Conditions(fn, flow, key)
+  considered = H.f_and(H.f_not(H.f_atom("is-formula")), H.f_atom("has-formula"))
+  dflt, known = H.f_atom("default"), H.f_atom("edge-known")
   for (n, c) in adds:
-    g = H.guards_of(fn.node, _stmt_of(fn.node, c))
-    whens = [(t, p) for (t, p) in g if "recalcWhen" in text(t)]
-    rec = _recalc_when_holds(whens[0][0], whens[0][1], "DEFAULT") if len(whens) == 1 else None
-    ok = rec is not None and _col_rec_lookup(fn, rec, table_id, col_id)
+    actual = cond.of_stmt(_stmt_of(fn.node, c), scope=cl)
+    shown = "edge added when " + H.f_show(actual)
     run.ob(R1, fn.qualname, "if col_rec.recalcWhen == RecalcWhen.DEFAULT: ... add_edge",
            "dependency edges exist only for columns configured to recalculate on changes to "
-           "their recalcDeps (the record being the trigger column's own)", ok,
-           witness="; ".join("%s=%s" % x for x in _gtexts(whens)) or "no recalcWhen guard",
+           "their recalcDeps (the record being the trigger column's own)",
+           "default" in H.f_atoms(actual) and
+           H.f_equivalent(H.f_and(actual, H.f_not(dflt)), H.F_FALSE), witness=shown,
            fi=fn.fi, node=c)
     # one edge per dependency column
     loop = None
     for s in walk_no_nested(cl):
       if isinstance(s, ast.For) and any(x is c for x in ast.walk(s)) and s is not cl:
         loop = s
-    ok = loop is not None and rec is not None and text(loop.iter) == rec + ".recalcDeps" and \
-        isinstance(loop.target, ast.Name)
-    inner = [(text(t), p) for (t, p) in g if loop is not None and _within(t, loop)]
-    ok = ok and all(p is True and isinstance(tt, str) and " not in " in tt for (tt, p) in inner)
+    ok = loop is not None and isinstance(loop.target, ast.Name)
+    if ok:
+      it = H.inline(flow, loop.iter)
+      ok = isinstance(it, ast.Attribute) and it.attr == "recalcDeps" and \
+          _col_rec_lookup(fn, text(it.value), table_id, col_id)
+    # ... and nothing but "already added" keeps a listed column from getting its edge
+    want = H.f_and(considered, dflt, H.f_not(known))
+    ok = ok and H.f_equivalent(H.f_or(H.f_not(want), actual), H.F_TRUE)
     run.ob(R1, fn.qualname, "for dc in col_rec.recalcDeps: add_edge", "every column listed in "
-           "recalcDeps gets an edge", ok, witness=repr(inner) if inner else None, fi=fn.fi,
-           node=c)
+           "recalcDeps gets an edge", ok, witness=shown, fi=fn.fi, node=c)
     # the edge: (trigger column) <- (dependency column) via SingleRowsIdentityRelation
-    flow = H.Flow(fn)
     ok = False
     if loop is not None and len(c.args) == 1 and isinstance(c.args[0], ast.Starred):
       rs = flow.roots(c.args[0].value, n.id)
@@ -166,26 +186,24 @@ def r1_dependencies(run, w):
            "SingleRowsIdentityRelation(table))", "the trigger column depends on the dependency "
            "column of the same table, row by row, through the relation that ignores "
            "whole-column invalidation", ok, fi=fn.fi, node=c)
-  # exactly the data columns with a formula are considered
-  (fn0, fc0) = adds[0]
-  g = H.guards_of(fn.node, _stmt_of(fn.node, fc0))
-  filt = [(t, p) for (t, p) in g if _within(t, cl) and p is False and
-          "recalcWhen" not in text(t)]
-  ok = len(filt) == 1 and _data_col_with_formula_skip(filt[0][0], col_obj)
-  run.ob(R1, fn.qualname, "if %s.is_formula() or not %s.has_formula(): continue" % (col_obj,
-                                                                                   col_obj),
-         "exactly the data columns that have a formula are (re)considered", ok,
-         witness="; ".join("%s=%s" % x for x in _gtexts(filt)), fi=fn.fi, node=fc0)
-  # old edges cleared first, for every considered column
+  # old edges cleared first, for exactly the data columns that have a formula
   clears = [(n, c) for (n, c, nm) in fn.calls() if nm == "self.dep_graph.clear_dependencies"]
-  flow = H.Flow(fn)
   ok = False
+  filt_ok = False
+  shown = None
   for (cn, cc) in clears:
     rs = flow.roots(cc.args[0], cn.id) if cc.args else []
-    gc = [(t, p) for (t, p) in H.guards_of(fn.node, _stmt_of(fn.node, cc)) if _within(t, cl)]
-    ok = ok or (_all_calls(rs, "Node", [table_id, col_id]) and
-                all(cfg.dominated_by(n.id, {cn.id}) for (n, c) in adds) and
-                _gtexts(gc) == _gtexts(filt))
+    actual = cond.of_stmt(_stmt_of(fn.node, cc), scope=cl)
+    shown = "old edges cleared when " + H.f_show(actual)
+    same = H.f_equivalent(actual, considered)
+    filt_ok = filt_ok or same
+    ok = ok or (_all_calls(rs, "Node", [table_id, col_id]) and same and
+                all(cfg.dominated_by(n.id, {cn.id}) for (n, c) in adds))
+  (fn0, fc0) = adds[0]
+  run.ob(R1, fn.qualname, "if %s.is_formula() or not %s.has_formula(): continue" % (col_obj,
+                                                                                   col_obj),
+         "exactly the data columns that have a formula are (re)considered", filt_ok,
+         witness=shown, fi=fn.fi, node=fc0)
   run.ob(R1, fn.qualname, "clear_dependencies(Node(table, col)) before add_edge",
          "every considered column -- whatever its recalcWhen now is -- loses its old edges "
          "first (no recalculation from dependencies it no longer has)", ok, fi=fn.fi)
@@ -265,31 +283,35 @@ def r2_new_records(run, w):
   run.ob(R2, fn.qualname, "for col_id in table.all_columns: %s.add(col_id)" % RC,
          "every column of the table the records are added to is a candidate for recalculation",
          ok, fi=fn.fi, node=loop or ic)
-  g = H.guards_of(fn.node, _stmt_of(fn.node, ac))
-  g = [(t, p) for (t, p) in g if loop is not None and _within(t, loop)]
   cv = text(loop.target) if loop is not None else "?"
-  supplied = [x for x in g if x[1] is False and isinstance(x[0], ast.Compare) and
-              isinstance(x[0].ops[0], ast.In) and text(x[0].left) == cv and
-              text(x[0].comparators[0]) == p_vals]
-  never = []
-  for (t, p) in g:
-    parts = t.values if isinstance(t, ast.BoolOp) and isinstance(t.op, ast.And) else [t]
-    rw = [_is_recalc_when(x, "NEVER") for x in parts]
-    rest = [x for x, r in zip(parts, rw) if r is None]
-    if p is False and any(r is not None for r in rw) and \
-        all(text(x) in ("not %s.startswith('_grist_')" % p_table,) for x in rest):
-      rec = [r for r in rw if r is not None][0]
-      if _col_rec_lookup(fn, rec, p_table, cv):
-        never.append((t, p))
-  others = [x for x in g if x not in supplied and x not in never]
+  def key(e):
+    e2 = H.inline(flow, e)
+    if isinstance(e2, ast.Compare) and len(e2.ops) == 1 and isinstance(e2.ops[0], ast.In) and \
+        text(e2.left) == cv and text(e2.comparators[0]) == p_vals:
+      return "supplied"
+    if text(e2) == "%s.startswith('_grist_')" % p_table:
+      return "metadata-table"
+    rec = _is_recalc_when(e2, "NEVER")
+    if rec is not None and _col_rec_lookup(fn, rec, p_table, cv):
+      return "never"
+    return None
+  cond = H.Conditions(fn, flow, key)
+  actual = cond.of_stmt(_stmt_of(fn.node, ac), scope=loop)
+  sup, meta, nev = H.f_atom("supplied"), H.f_atom("metadata-table"), H.f_atom("never")
+  user_never = H.f_and(H.f_not(meta), nev)
+  expected = H.f_and(H.f_not(sup), H.f_not(user_never))
+  shown = H.f_show(actual)
   run.ob(R2, fn.qualname, "if col_id in %s: continue" % p_vals, "a column for which the action "
-         "supplied a value is not recalculated", len(supplied) == 1, fi=fn.fi, node=ac)
+         "supplied a value is not recalculated",
+         H.f_equivalent(H.f_and(actual, sup), H.F_FALSE), witness="added when " + shown,
+         fi=fn.fi, node=ac)
   run.ob(R2, fn.qualname, "if col_rec.recalcWhen == RecalcWhen.NEVER: continue",
-         "a NEVER column is not recalculated for new records", len(never) == 1, fi=fn.fi,
-         node=ac)
+         "a NEVER column is not recalculated for new records",
+         H.f_equivalent(H.f_and(actual, user_never), H.F_FALSE), witness="added when " + shown,
+         fi=fn.fi, node=ac)
   run.ob(R2, fn.qualname, "no other column is skipped", "every other column gets its formula's "
-         "value on a new record", not others,
-         witness="; ".join("%s=%s" % x for x in _gtexts(others)) or None, fi=fn.fi, node=ac)
+         "value on a new record", H.f_equivalent(H.f_or(H.f_not(expected), actual), H.F_TRUE),
+         witness="added when " + shown, fi=fn.fi, node=ac)
   # the invalidation covers the new rows, after the records exist
   gws = {n.id for (n, c, nm) in fn.calls() if E.is_strict_gateway_call(c, nm, fn)}
   rret = H.returns_of(fn.node)
@@ -415,14 +437,26 @@ def r3_exemptions(run, w):
                "the exemptions of the current user action are changed only by prevent_recalc "
                "and dropped only at the start of the next user action; in particular "
                "_recompute_step, which may see a node several times, must leave them in place",
-               allowed_writes.get(fi.qualname) == kind, fi=fi, node=x)
+               _write_allowed(w, fi, kind, allowed_writes), fi=fi, node=x)
   if n_access < 4:
     raise AnalysisError("accesses to Engine.%s not found" % MAP)
   # cleared at the start of every user action
   fn = w.fn("engine.Engine.apply_user_actions")
   cfg = fn.cfg
   p_actions = fn.fi.params()[1]
-  clr = fn.nodes_calling(lambda c, nm, f: nm == "self.%s.clear" % MAP)
+  def clears(c, nm, f, depth=0):
+    if nm == "self.%s.clear" % MAP:
+      return True
+    # a private helper of the same class that clears the map on every path
+    if nm and nm.startswith("self._") and nm.count(".") == 1 and f.fi.cls is not None and \
+        depth < 2:
+      t = w.repo.find_method(f.fi.cls, nm.split(".")[1])
+      if t is not None and t.qualname != f.fi.qualname:
+        tf = w.fn_of(t)
+        inner = tf.nodes_calling(lambda c2, nm2, f2: clears(c2, nm2, f2, depth + 1))
+        return bool(inner) and tf.cfg.dominated_by(tf.cfg.exit.id, inner)
+    return False
+  clr = fn.nodes_calling(clears)
   app = fn.nodes_calling(lambda c, nm, f: nm == "self._apply_one_user_action")
   loops = {n.id for n in cfg.nodes if n.kind == "for" and text(n.stmt.iter) == p_actions}
   ok = bool(clr) and bool(app) and bool(loops)
@@ -441,34 +475,66 @@ def r3_exemptions(run, w):
   fn = w.fn("engine.Engine._recompute_step")
   flow = H.Flow(fn)
   p_node = fn.fi.params()[1]
-  ex = [s for s in walk_no_nested(fn.node) if isinstance(s, ast.Assign) and
-        isinstance(s.value, ast.Call) and isinstance(s.value.func, ast.Attribute) and
-        isinstance(s.value.func.value, ast.Attribute) and s.value.func.value.attr == MAP and
-        isinstance(s.targets[0], ast.Name)]
-  ok = len(ex) == 1 and s_args(ex[0].value)[:1] == [p_node]
-  EX = ex[0].targets[0].id if ex else None
-  subs = [s for s in walk_no_nested(fn.node) if isinstance(s, ast.Assign) and
-          isinstance(s.value, ast.BinOp) and isinstance(s.value.op, ast.Sub) and
-          text(s.value.right) == EX and text(s.targets[0]) == text(s.value.left)]
-  aug = [s for s in walk_no_nested(fn.node) if isinstance(s, ast.AugAssign) and
-         text(s.value) == EX]
-  muts = [c for c in calls_in(fn.node) if isinstance(c.func, ast.Attribute) and
-          c.func.attr in ("difference_update", "discard", "remove") and
-          EX is not None and any(text(a) == EX for a in c.args)]
+  reads = [(n, c) for (n, c, nm) in H.calls(fn) if isinstance(c.func, ast.Attribute) and
+           isinstance(c.func.value, ast.Attribute) and c.func.value.attr == MAP]
+  ok = len(reads) == 1 and reads[0][1].func.attr == "get" and s_args(reads[0][1])[:1] == [p_node]
+  exc = reads[0][1] if reads else None
+
+  def is_exempt(e, nid=None):
+    """e denotes the exemptions read from the map."""
+    if exc is None or not isinstance(e, ast.expr):
+      return False
+    if e is exc:
+      return True
+    try:
+      rs = flow.roots(e, nid if nid is not None else flow.node_of(e))
+    except AnalysisError:
+      return False
+    return bool(rs) and all(r.kind == "call" and r.node is exc and not r.path for r in rs)
+
+  subs = [(n, x) for n in fn.cfg.nodes for e in n.exprs for x in walk_no_nested(e)
+          if isinstance(x, ast.BinOp) and isinstance(x.op, ast.Sub) and is_exempt(x.right, n.id)]
+  aug = [n for n in fn.cfg.nodes if n.kind == "stmt" and isinstance(n.stmt, ast.AugAssign) and
+         is_exempt(n.stmt.value, n.id)]
+  muts = [c for (n, c, nm) in H.calls(fn) if isinstance(c.func, ast.Attribute) and
+          c.func.attr in ("difference_update", "discard", "remove", "intersection_update") and
+          any(is_exempt(a, n.id) for a in c.args)]
   ok = ok and len(subs) == 1 and not aug and not muts
-  DR = text(subs[0].targets[0]) if subs else None
   if ok:
-    g = _gtexts(H.guards_of(fn.node, subs[0]))
-    ok = (EX, True) in g
-    # the evaluation loop iterates the reduced set
-    loops = [n for n in fn.cfg.nodes if n.kind == "for" and
-             DR in {x.id for x in ast.walk(n.stmt.iter) if isinstance(x, ast.Name)}]
-    sub_id = flow.node_of(subs[0].value)
-    ok = ok and bool(loops) and all(sub_id in flow.reaching(DR, l.id)[0] for l in loops)
-  run.ob(R3, fn.qualname, "exempt = self.%s.get(%s); if exempt: %s = %s - exempt"
-         % (MAP, p_node, DR, DR), "the rows evaluated are the dirty rows minus the exempt ones, "
+    (sn, sx) = subs[0]
+    g = H.guard_atoms(fn.node, sn.stmt) if sn.stmt is not None else []
+    for x in [sx]:
+      pass
+    ok = any(p is True and is_exempt(t) for (t, p) in g) or not g
+    # the evaluation loop iterates the reduced set: the difference is one origin of the set the
+    # rows are drawn from, its left operand being the dirty rows
+    loops = []
+    for l in fn.cfg.nodes:
+      if l.kind != "for":
+        continue
+      for nm in [x for x in ast.walk(l.stmt.iter) if isinstance(x, ast.Name)]:
+        rs = flow.roots(nm, l.id)
+        if any(r.node is sx for r in rs):
+          left = flow.roots(sx.left, sn.id)
+          loops.append(bool(left) and all(
+            any(r.node is o.node for o in rs) or r.node is sx for r in left))
+    ok = ok and bool(loops) and all(loops)
+  run.ob(R3, fn.qualname, "exempt = self.%s.get(%s); if exempt: dirty_rows = dirty_rows - exempt"
+         % (MAP, p_node), "the rows evaluated are the dirty rows minus the exempt ones, "
          "computed as a new set (the dirty set kept in recompute_map is not edited in place)",
          ok, fi=fn.fi)
+
+
+def _write_allowed(w, fi, kind, allowed, depth=0):
+  """The write happens in the function allowed to make it, or in a private helper that only
+  that function calls."""
+  if allowed.get(fi.qualname) == kind:
+    return True
+  if depth >= 2:
+    return False
+  sites = H._call_sites(w, fi)
+  return bool(sites) and all(_write_allowed(w, cfn.fi, kind, allowed, depth + 1)
+                             for (cfn, n, c) in sites)
 
 
 def s_args(call):
@@ -821,6 +887,10 @@ VARIANTS = [
   ("never-columns-computed-on-add", U,
    "        if col_rec.recalcWhen == RecalcWhen.NEVER:\n          continue\n",
    "", "C15-R2"),
+  ("never-skipped-only-for-formula-columns", U,
+   "        if col_rec.recalcWhen == RecalcWhen.NEVER:\n          continue\n",
+   "        if col_rec.recalcWhen == RecalcWhen.NEVER and col_rec.isFormula:\n          continue\n",
+   "C15-R2"),
   ("only-default-computed-on-add", U,
    "        if col_rec.recalcWhen == RecalcWhen.NEVER:\n          continue\n",
    "        if col_rec.recalcWhen != RecalcWhen.DEFAULT:\n          continue\n", "C15-R2"),
